@@ -5,6 +5,7 @@
 (* lookups running concurrently, is validated against the lock discipline of  *)
 (* CacheLock (CanWrite / CanRead) and the cache's meaning:                    *)
 (*   InsLocked  needs the shard free (no writer, no reader)                   *)
+(*   *Locked    the goroutine is inside no other shard (CacheLockOrder.tla)   *)
 (*   RetLocked / DumpLocked need no writer                                    *)
 (*   RetDone    observes exactly the last version inserted for its key        *)
 (*   AnnReturn  a processed announcement was inserted by its goroutine, or was  *)
@@ -31,13 +32,16 @@ TraceInit == /\ l = 1 /\ wr = [s \in 1..NShards |-> 0] /\ rd = [s \in 1..NShards
 Is(e) == l <= Len(Trace) /\ Ev.ev = e /\ l' = l + 1
 Put(f, g, v) == [x \in DOMAIN f \cup {g} |-> IF x = g THEN v ELSE f[x]]
 
-InsLocked == /\ Is("InsLocked") /\ CanWrite(wr[Ev.s], rd[Ev.s])
+(* lock order (CacheLockOrder.tla): a goroutine enters a shard only when it is inside no other - the precondition of *)
+(* the cache's freedom from deadlock under writer-preferring RWMutexes                                               *)
+Holds(g) == \E s \in 1..NShards : wr[s] = g \/ g \in rd[s]
+InsLocked == /\ Is("InsLocked") /\ CanWrite(wr[Ev.s], rd[Ev.s]) /\ ~Holds(Ev.g)
              /\ wr' = [wr EXCEPT ![Ev.s] = Ev.g] /\ UNCHANGED <<rd, map, lastobs, snap, ann>>
 InsDone == /\ Is("InsDone") /\ wr[Ev.s] = Ev.g /\ Ev.v > 0
            /\ map' = [map EXCEPT ![Ev.k] = [s |-> Ev.s, v |-> Ev.v]]
            /\ ann' = IF Ev.g \in DOMAIN ann /\ ann[Ev.g].v = Ev.v THEN [ann EXCEPT ![Ev.g].ok = TRUE] ELSE ann
            /\ wr' = [wr EXCEPT ![Ev.s] = 0] /\ UNCHANGED <<rd, lastobs, snap>>
-RetLocked == /\ Is("RetLocked") /\ CanRead(wr[Ev.s])
+RetLocked == /\ Is("RetLocked") /\ CanRead(wr[Ev.s]) /\ ~Holds(Ev.g)
              /\ rd' = [rd EXCEPT ![Ev.s] = @ \cup {Ev.g}] /\ UNCHANGED <<wr, map, lastobs, snap, ann>>
 RetDone == /\ Is("RetDone") /\ Ev.g \in rd[Ev.s]
            /\ Ev.v = map[Ev.k].v
@@ -54,7 +58,7 @@ AnnReturn == /\ Is("AnnReturn") /\ Ev.g \in DOMAIN ann /\ ann[Ev.g].v = Ev.v /\ 
              /\ UNCHANGED <<wr, rd, map, lastobs, snap, ann>>
 (* contents of shard s: the set of <<key, version>> living there *)
 ShardContent(s) == {<<k, map[k].v>> : k \in {x \in Keys : map[x].s = s /\ map[x].v > 0}}
-DumpLocked == /\ Is("DumpLocked") /\ CanRead(wr[Ev.s])
+DumpLocked == /\ Is("DumpLocked") /\ CanRead(wr[Ev.s]) /\ ~Holds(Ev.g)
               /\ rd' = [rd EXCEPT ![Ev.s] = @ \cup {Ev.g}]
               /\ snap' = [snap EXCEPT ![Ev.s] = <<ShardContent(Ev.s)>>]
               /\ UNCHANGED <<wr, map, lastobs, ann>>
